@@ -17,7 +17,12 @@ Fixpoint list_eqb (a b : list nat) : bool :=
 
 Record ro_case := { rc_md : Q; rc_rad : list Q; rc_D : list (list Q); rc_out : list nat }.
 
+(* the recorded matrix must have the shape n x n (a short row would otherwise read as distance 0) *)
+Definition square (t : list (list Q)) (n : nat) : bool :=
+  Nat.eqb (length t) n && forallb (fun r => Nat.eqb (length r) n) t.
+
 Definition ro_agree (c : ro_case) : bool :=
+  square (rc_D c) (length (rc_rad c)) &&
   list_eqb (ro (tbl (rc_D c)) (vec (rc_rad c)) (rc_md c) (seq 0 (length (rc_rad c)))) (rc_out c).
 
 (* remove_small / copy(min_radius): survivors of the filter radius > min_radius *)
@@ -25,19 +30,42 @@ Record rs_case := { rs_mn : Q; rs_rad : list Q; rs_out : list nat }.
 Definition rs_agree (c : rs_case) : bool :=
   list_eqb (remove_small (vec (rs_rad c)) (rs_mn c) (seq 0 (length (rs_rad c)))) (rs_out c).
 
-(* distance matrix (without radii) against the grid model: M_ij^2 = dist2 up to sqrt rounding *)
+(* distance matrix (without radii) against the grid model: M_ij^2 = dist2 up to sqrt rounding.
+   `unit` is the square of the length scale of the case (1 for inputs of order one), so that the absolute part of the
+   tolerance scales with the input and the comparison stays meaningful for very small / very large emulsions. *)
 Definition close_rel (a b tol : Q) : bool :=
   Qle_bool (Qabs (a - b)) (tol * (Qabs a + Qabs b + 1)).
 
-Record dist_case := { dc_grid : option grid; dc_pos : list (list Q); dc_M : list (list Q) }.
+Definition close_rel_unit (a b tol unit : Q) : bool :=
+  Qle_bool (Qabs (a - b)) (tol * (Qabs a + Qabs b + unit)).
+
+(* Metrics of the non-Cartesian grids as py-pde 0.58.0 computes `grid.distance(p, q, coords="cartesian")`:
+   GridBase._difference_vector loops over the periodicity list of the GRID axes and wraps the Cartesian component with
+   the same index.  CylindricalSymGrid has grid axes (r, z): x is never wrapped (r is not periodic), the Cartesian *y*
+   component is wrapped with the z period when periodic_z is set, the Cartesian z component is never wrapped (finding
+   F19).  Polar / spherical grids (any inner radius) use the plain Euclidean difference. *)
+Definition plain_axis : axis := {| ncell := 1; alo := 0; ahi := 1; aper := false |}.
+
+Definition cyl_metric (nr nz : Z) (R z0 z1 : Q) (pz : bool) : grid :=
+  [ {| ncell := nr; alo := 0; ahi := R; aper := false |};
+    {| ncell := nz; alo := z0; ahi := z1; aper := pz |};
+    plain_axis ].
+
+Definition sym_metric (dim : nat) : grid := repeat plain_axis dim.
+
+Record dist_case := { dc_grid : option grid; dc_unit : Q; dc_pos : list (list Q); dc_M : list (list Q) }.
 
 Definition model_d2 (c : dist_case) (i j : nat) : Q :=
   let p := nth i (dc_pos c) [] in let q := nth j (dc_pos c) [] in
   match dc_grid c with Some g => dist2 g p q | None => edist2 p q end.
 
+(* upper triangle against the model; the lower triangle must repeat the upper one exactly, the diagonal is 0 *)
 Definition dist_agree (c : dist_case) : bool :=
   let n := length (dc_pos c) in
+  square (dc_M c) n &&
   forallb (fun i => forallb (fun j =>
     let m := tbl (dc_M c) i j in
-    close_rel (m * m) (if Nat.eqb i j then 0 else model_d2 c i j) (1 # 1000000000000))
+    if Nat.ltb i j then close_rel_unit (m * m) (model_d2 c i j) (1 # 1000000000000) (dc_unit c)
+    else if Nat.eqb i j then Qeq_bool m 0
+    else Qeq_bool m (tbl (dc_M c) j i))
     (seq 0 n)) (seq 0 n).
